@@ -161,6 +161,9 @@ def rule_a(ctx):
                                 ok = False
             if name == 'on_next' and seen_here == 0:
                 ok = False  # no replenishment at all in on_next
+            if name == 'on_subscribe' and seen_here and 'CollectorSubscriber' in spec:
+                ok = False  # the collector's first batch is the request frame's initial request-n: asking again at
+                # on_subscribe grants the responder more than the application did
         rep.add('C06.a', '%s / re-requests exactly its limit after a full batch' % spec.split(':')[1] + ' (%s)' %
                 spec.split('.')[1], c, ok and seen > 0,
                 'subscription.request(limit) when the received count reaches the limit' if ok and seen else
@@ -714,4 +717,14 @@ def rule_dispatch_awaited(ctx):
     dispatch.rule_lookup(ctx, 'C01.e')
 
 
-RULES = [('C06.a', rule_a), ('C06.b', rule_b), ('C06.c', rule_c), ('C06.a', rule_g), ('C06.d', rule_e), ('C06.e+C20.g+C20.i+C20.k', rule_f), ('C07.e', rule_genpub), ('C05.a+C05.b+C14.f+C03.c', rule_d), ('C05.h', rule_builders_fresh), ('C01.e', rule_dispatch_awaited)]
+
+def rule_subscribe_order(ctx):
+    """(shared C07.c)  on_subscribe is delivered before the request frame is queued, so whatever a subscriber requests
+    from inside on_subscribe is not added to the initial request-n the frame already carries (rules/c07.py); together
+    with C06.a (the collector asks for nothing at on_subscribe) the responder is granted what the application
+    granted."""
+    from .c07 import rule_c as c07c
+    c07c(ctx)
+
+
+RULES = [('C06.a', rule_a), ('C06.b', rule_b), ('C06.c', rule_c), ('C06.a', rule_g), ('C06.d', rule_e), ('C06.e+C20.g+C20.i+C20.k', rule_f), ('C07.e', rule_genpub), ('C05.a+C05.b+C14.f+C03.c', rule_d), ('C05.h', rule_builders_fresh), ('C01.e', rule_dispatch_awaited), ('C07.c', rule_subscribe_order)]
